@@ -5,6 +5,7 @@ package composite
 // manager's onRelated*) are called directly with workers off; the queue is read afterwards.
 
 import (
+	"encoding/json"
 	"fmt"
 	"sort"
 	"testing"
@@ -306,6 +307,14 @@ func TestVerifEvents(t *testing.T) {
 					pu := it.(*unstructured.Unstructured)
 					if v, ok := w.pc.customize.VerifCachedResponse(pu.GetUID(), pu.GetGeneration()); ok {
 						answers[string(pu.GetUID())] = v
+					} else {
+						// nothing cached for this parent after the event: what the (pure) customize hook answers for it - the
+						// handler has to ask when it has no cached answer, so this is what it must have worked from
+						ans := scriptedHook(cfg)("customize", map[string]interface{}{"parent": pu.UnstructuredContent()})
+						var v interface{}
+						if json.Unmarshal(ans.Body, &v) == nil {
+							answers[string(pu.GetUID())] = v
+						}
 					}
 				}
 			}
